@@ -13,6 +13,8 @@ import VrlModel.Driver.C35
 import VrlModel.Driver.C36
 import VrlModel.Driver.C27
 import VrlModel.Driver.C26
+import VrlModel.Driver.C28
+import VrlModel.Driver.C29f
 
 /-- Line protocol driver: one case per line `op <tab> arg…`, one reply line per case. -/
 def handlers : List (String → List String → Option String) := [
@@ -30,7 +32,9 @@ def handlers : List (String → List String → Option String) := [
   Driver.C35.handle,
   Driver.C36.handle,
   Driver.C27.handle,
-  Driver.C26.handle
+  Driver.C26.handle,
+  Driver.C28.handle,
+  Driver.C29f.handle
 ]
 
 def dispatch (op : String) (args : List String) : String :=
